@@ -617,17 +617,25 @@ package geometry
 //@ spec func movedOf(q []Point, ps []Point, dx real, dy real) bool opaque {
 //@     len(q) == len(ps) && (forall i int :: 0 <= i && i < len(ps) ==> ptAt(q,i) == trP(ptAt(ps,i), dx, dy)) }
 // every translate of ps satisfies the constructor precondition (in-domain coordinates, exact shoelace sums)
-//@ spec func moveExactS(ps []Point, dx real, dy real) bool opaque { forall q []Point :: movedOf(q, ps, dx, dy) ==> ptsExact(q) }
+// (ptsExactO: ptsExact behind an opaque name, so that the quantifier below has an atomic body and the solver picks movedOf / ptsExactO as its trigger)
+//@ spec func ptsExactO(q []Point) bool opaque { ptsExact(q) }
+//@ spec func moveExactS(ps []Point, dx real, dy real) bool { forall q []Point :: movedOf(q, ps, dx, dy) ==> ptsExactO(q) }
+//@ lemma bboxSame(a []Point, b []Point, k int)
+//@   props C12
+//@   requires samePts(a, b) && 1 <= k && k <= len(a)
+//@   ensures bboxOf(a, k) == bboxOf(b, k)
+//@   induction k from 1
+//@ lemma moveExactElim(ps []Point, q []Point, dx real, dy real)
+//@   props C12
+//@   requires moveExactS(ps, dx, dy) && movedOf(q, ps, dx, dy)
+//@   ensures ptsExact(q)
 //@ lemma movedIntro(q []Point, ps []Point, dx real, dy real)
 //@   props C12
 //@   requires len(q) == len(ps) && (forall i int :: 0 <= i && i < len(ps) ==> ptAt(q,i) == trP(ptAt(ps,i), dx, dy))
 //@   ensures movedOf(q, ps, dx, dy)
 
-// engine limitation: the body stores into a FIELD of an element of a local slice (`points[i].X = ...`, series.go:114), which the
-// executor rejects ("unsupported: heap store"); the contract below is what the loop + makeSeries + buildIndex contracts give.
 //@ func baseSeries.Move
 //@   props C12 C04
-//@   trusted executor cannot model `points[i].X = v` (field store into a slice element); Move is covered by the bounded move suite (govrac move)
 //@   requires series != nil
 //@   requires Exact: moveExactS(series.points, deltaX, deltaY)
 //@   ensures Fresh: result != nil && isBS(result) && !old($alloc)[result]
@@ -635,6 +643,30 @@ package geometry
 //@   ensures Points: movedOf(bsPoints(result), series.points, deltaX, deltaY)
 //@   ensures Index: IndexInv(result)
 //@   ensures Rect: !degenerate(series.points, series.closed) ==> bsRectOf(result) == bboxOf(bsPoints(result), len(bsPoints(result)))
+//@   loop 0 invariant Range: 0 <= i && i <= len(series.points) && len(points) == len(series.points)
+//@   loop 0 invariant Done: forall j int :: (0 <= j && j < i) ==> ptAt(points, j) == trP(ptAt(series.points, j), deltaX, deltaY)
+//@   loop 0 invariant Frame: forall b *baseSeries :: old($alloc)[b] ==> (b.index == old(b.index) && b.indexKind == old(b.indexKind) && b.points == old(b.points) && b.closed == old(b.closed))
+//@   loop 0 decreases len(series.points) - i
+//@   loop 0 assert ptAt(series.points, i) == series.points[i]
+//@   stmt series.go:"points[i].Y = series.points[i].Y + deltaY" assert AfterX: ptAt(points, i).X == ptAt(series.points, i).X + deltaX && len(points) == len(series.points)
+//@   stmt series.go:"points[i].Y = series.points[i].Y + deltaY" assert KeptX: forall j int :: (0 <= j && j < i) ==> ptAt(points, j) == trP(ptAt(series.points, j), deltaX, deltaY)
+//@   stmt series.go:"nseries := makeSeries(points, false, series.closed, nil)" use movedIntro(points, series.points, deltaX, deltaY)
+//@   stmt series.go:"nseries := makeSeries(points, false, series.closed, nil)" assert Moved: movedOf(points, series.points, deltaX, deltaY)
+//@   stmt series.go:"nseries := makeSeries(points, false, series.closed, nil)" assert Exact: ptsExact(points)
+//@   stmt series.go:"nseries.indexKind = series.indexKind" assert Same: samePts(nseries.points, points) && len(points) == len(series.points)
+//@   stmt series.go:"nseries.indexKind = series.indexKind" assert LenNow: len(nseries.points) == len(points)
+//@   stmt series.go:"nseries.indexKind = series.indexKind" use bboxSame(nseries.points, points, len(points))
+//@   stmt series.go:"nseries.indexKind = series.indexKind" assert RectOwn: !degenerate(nseries.points, nseries.closed) ==> nseries.rect == bboxOf(nseries.points, len(nseries.points))
+//@   stmt series.go:"nseries.indexKind = series.indexKind" assert Idx0: IndexInv(nseries)
+//@   stmt series.go:"if series.Index() != nil {" assert Idx1n: idxOK(nseries)
+//@   stmt series.go:"if series.Index() != nil {" assert Idx1: IndexInv(nseries) && (!degenerate(nseries.points, nseries.closed) ==> nseries.rect == bboxOf(nseries.points, len(nseries.points))) && nseries.closed == series.closed && movedOf(nseries.points, series.points, deltaX, deltaY)
+//@   stmt series.go:"return &nseries" assert I2built: series.index != nil ==> idxOK(nseries)
+//@   stmt series.go:"return &nseries" assert I2kept: series.index == nil ==> idxOK(nseries)
+//@   stmt series.go:"return &nseries" assert I2n: idxOK(nseries)
+//@   stmt series.go:"return &nseries" assert I2a: IndexInv(nseries)
+//@   stmt series.go:"return &nseries" assert I2b: !degenerate(nseries.points, nseries.closed) ==> nseries.rect == bboxOf(nseries.points, len(nseries.points))
+//@   stmt series.go:"return &nseries" assert I2c: nseries.closed == series.closed && movedOf(nseries.points, series.points, deltaX, deltaY)
+//@   stmt series.go:"nseries.indexKind = series.indexKind" assert RectNow: !degenerate(points, series.closed) ==> nseries.rect == bboxOf(points, len(points))
 
 //@ spec func lineMovedS(n *Line, l *Line, dx real, dy real) bool {
 //@     n != nil && bsClosed(n.baseSeries) == bsClosed(l.baseSeries) && movedOf(bsPoints(n.baseSeries), bsPoints(l.baseSeries), dx, dy) && IndexInv(n.baseSeries) }
@@ -643,3 +675,8 @@ package geometry
 //@   requires line != nil ==> moveExactS(line.baseSeries.points, deltaX, deltaY)
 //@   ensures Nil: (result == nil) == (line == nil)
 //@   ensures Moved: line != nil ==> (lineMovedS(result, line, deltaX, deltaY) && !old($alloc)[result])
+
+//@ func baseSeries.Index
+//@   props C12 C04
+//@   requires series != nil
+//@   ensures result == series.index
